@@ -213,6 +213,8 @@ Inductive fin :=
 | FFoc (ic : list cond)
 | FSaveSlice (vs : list rec)
 | FSaveOmit (os : list col) (v : rec)    (* Omit(cols...).Save(&v) *)
+| FCreateOCSlice (ru : rule) (b : Z) (vs : list rec)
+    (* Clauses(OnConflict{...}).Create(&slice) (b = 0) / CreateInBatches(&slice, b) *)
 | FCreateU (ru : rule) (tgt : bool) (v : rec).
     (* Create + OnConflict rule on a table whose e-mails starting with "u" are UNIQUE (second, partial
        unique index of the harness table); tgt = OnConflict.Columns = [id] written explicitly *)   (* Save(&[]Acct{...}): one INSERT ... ON CONFLICT UPDATE ALL, keys handed back *)
@@ -368,6 +370,11 @@ Definition save_slice_run (t : table) (now : Z) (vs : list rec) : table * list r
   fold_left (fun acc v => let r := create (fst acc) now (Some RAll) (with_uat now v) in
                           (res_tbl r, snd acc ++ [res_ret r])) vs (t, []).
 
+(* Create(&slice) with a rule: the VALUES rows in order (CreateInBatches: the same rows over several
+   statements of one transaction); RowsAffected counts the rows inserted or updated *)
+Definition create_slice_run (t : table) (now : Z) (ru : rule) (vs : list rec) : table * Z :=
+  fold_left (fun acc v => let r := create (fst acc) now (Some ru) v in (res_tbl r, snd acc + res_ra r)) vs (t, 0).
+
 Definition step (keep : bool) (t : table) (now : Z) (ch : list cel) (f : fin) : result :=
   let h := run_chain keep ch in
   match f with
@@ -379,6 +386,10 @@ Definition step (keep : bool) (t : table) (now : Z) (ch : list cel) (f : fin) : 
                      mk_result (last (snd run) zero_rec) (Z.of_nat (length vs)) false 1 (fst run)
   | FSaveOmit os v => save_omit t now os v
   | FCreateU ru tgt v => create_u t now ru tgt v
+  | FCreateOCSlice ru b vs =>
+      let run := create_slice_run t now ru vs in
+      let n := Z.of_nat (length vs) in
+      mk_result zero_rec (snd run) false (if b <=? 0 then 1 else (n + b - 1) / b) (fst run)
   end.
 
 (* the caller's slice after the call (FSaveSlice only) *)
